@@ -1884,7 +1884,7 @@ class Method:
             (self.output, str, "next_page_token"),
         ):
             field = source.fields.get(name, None)
-            if not field or field.type != source_type:
+            if not field or field.type != source_type or field.repeated:
                 return None
 
         # The request must have page_size (or max_results if legacy API)
@@ -1892,13 +1892,18 @@ class Method:
             self.input.fields.get("max_results", None),
             self.input.fields.get("page_size", None),
         )
-        page_field_size = next((field for field in page_fields if field), None)
+        # Use the first of them that has an allowed type.
+        page_field_size = next(
+            (
+                field
+                for field in page_fields
+                if field
+                and self._validate_paged_field_size_type(page_field_size=field)
+            ),
+            None,
+        )
 
         if not page_field_size:
-            return None
-
-        # Confirm whether the paged_field_size is an allowed type.
-        if not self._validate_paged_field_size_type(page_field_size=page_field_size):
             return None
 
         # Return the first repeated field.
